@@ -340,7 +340,8 @@ def subst(t, env):
     if k == "union":
         # yardl derives tags at the definition, before type arguments are known
         cases = tuple((tag if (tag is not None or c is None) else default_tag(c), subst(c, env)) for tag, c in t[1])
-        generic = len(t) > 2 or any(c is not None and c[0] == "tparam" for _, c in t[1])
+        # ... or a map keyed by a type parameter (an object for string keys, an array of pairs otherwise)
+        generic = len(t) > 2 or any(c is not None and (c[0] == "tparam" or (c[0] == "map" and c[1][0] == "tparam")) for _, c in t[1])
         return ("union", cases, "generic") if generic else ("union", cases)
     if k == "vec":
         return ("vec", subst(t[1], env), t[2])
